@@ -378,7 +378,11 @@ def _t(s):
 
 PROBE_NAMES = ['va', 'vb', 'xo', 'fo', 'xi', 'xk', 'xm', 'la', 'lb', 'td',
                'error_type', 'sequence-item', 'sequence-index', 'pq_item',
-               'ct', 'cf', 'ft', 'ff', 'fa']
+               'ct', 'cf', 'ft', 'ff', 'fa',
+               # outer names that merely end like a sequence variable
+               'content-length', 'page-number', 'my-item', 'doc-key',
+               'row-index', 'x-even', 'q-roman', 'tab-start', 'sequence-foo',
+               'a-size', 'b-batches']
 
 
 def probes(tag):
